@@ -21,6 +21,7 @@ LEVEL_NOTE = ('abstract view = bag of (join(V, unquote(first Path line)), first 
               '(empty VC).  The induction over the history is the standard '
               'schema, stated.')
 EXPECTED = [
+    'list-action/every-message-is-printed-exactly-once',
     'list-options/trash-dirs-are-the-option-values-in-order',
     'list-options/action-is-listing-unless-the-last-action-flag-says-otherwise',
     'list-reader/one-line-iff-well-formed',
@@ -59,6 +60,7 @@ def build(S, tier, seed):
     deps = [dates.ParseDeletionDate(), dates.ClockNow(), dates.OlderThan()]
     S.install(deps)
     purge.empty_vc(S, dry_run=False)
+    readers.list_action_vc(S)
     options.list_options_vc(S)
     options.put_options_vc(S)
     options.empty_options_vc(S)
@@ -159,6 +161,31 @@ def history_battery(repo, seed=0, histories=6, steps=12):
                     problems.append('h%d s%d after %s: list %r, model %r' % (
                         h, st, op, got[:3], want[:3]))
                     break
+    # the trash is a BAG: the same path trashed twice within one second is two
+    # entries and two (identical) lines; restoring one leaves the other
+    with Sandbox(repo) as sb:
+        env = {'TRASH_VOLUMES': sb.path('vol')}
+        td = os.path.join(sb.home, '.local', 'share', 'Trash')
+        work = sb.path('work')
+        os.makedirs(work)
+        P = os.path.join(work, 'build.log')
+        sb.add_entry(td, 'build.log', path=P, date='2021-03-04T05:06:07')
+        sb.add_entry(td, 'build.log_1', path=P, date='2021-03-04T05:06:07')
+        sb.add_entry(td, 'other', path=os.path.join(work, 'other'),
+                     date='2021-03-04T05:06:07')
+        r = sb.run('trash-list', [], env=env)
+        lines = sorted(l for l in r['stdout'].split('\n') if l)
+        want = sorted(['2021-03-04 05:06:07 ' + P] * 2 +
+                      ['2021-03-04 05:06:07 ' + os.path.join(work, 'other')])
+        if lines != want:
+            problems.append('two entries with the same path and date: list prints %r'
+                            % (lines,))
+        sb.run('trash-restore', [work], env=env, stdin='0\n', cwd=work)
+        r = sb.run('trash-list', [], env=env)
+        left = [l for l in r['stdout'].split('\n') if l.endswith('build.log')]
+        if len(left) != 1:
+            problems.append('after restoring one of two equal entries the list '
+                            'shows %d of them' % len(left))
     return {'confirmed': bool(problems), 'problems': problems[:10],
             'histories': histories, 'steps': steps}
 
